@@ -355,7 +355,7 @@ class Oracle:
                 j = json.loads(data)
             except json.JSONDecodeError:
                 return "DECODE"
-            except UnicodeDecodeError:
+            except ValueError:          # UnicodeDecodeError; "Exceeds the limit (4300 digits) for integer string conversion"
                 return "UNICODE"
             except Exception:
                 return "OTHER"
